@@ -9,6 +9,10 @@ import Frp.Lemmas.RegCtl
 import Frp.Lemmas.UserInput
 import Frp.Gen.IndexFacts
 import Frp.Gen.PluginClose
+import Frp.Lemmas.SshGw
+import Frp.Lemmas.LockBal
+import Frp.Gen.LockBalance
+import Frp.Gen.MapCensus
 /-
   C16 — No input or interleaving crashes or wedges frps or frpc (partial).
 
@@ -47,6 +51,24 @@ import Frp.Gen.PluginClose
       pkg/plugin/client (REGENERATED Gen/PluginClose.lean) makes only calls that cannot wait for a user; with such a
       Close the worker reaches the next login under every interleaving with the users, whatever is active; with a
       Shutdown without deadline, tcpMux off and one request that does not end it never does.
+
+  Added (round 5) — the ssh tunnel gateway:
+  10. pkg/ssh: the six indexing / slicing expressions (REGENERATED Gen/IndexFacts.lean `sshSites`, with HOW each bound
+      was computed) under the same judgement; the request loop of TunnelServer.handleNewChannel with Go's integer
+      arithmetic explicit (`SshGw.handleReq`: the type `end` is computed in and the width of `int` are parameters):
+      computed in uint32 it panics exactly for an `exec` payload of more than four bytes with a length prefix
+      0xFFFFFFFC … 0xFFFFFFFF (known finding), computed in a 64-bit type never; x/crypto/ssh's Unmarshal of the
+      forward request never slices out of range; one ssh connection as a fold over client events.
+      Switch `sshExecArith` — NOT set by hand: read from the regenerated facts (`ssh_exec_shape`), the clauses
+      `ssh_exec_code` / `ssh_conn_code` / `ssh_sites_guarded_code` are valid on both trees.
+
+  11. lock BALANCE (REGENERATED Gen/LockBalance.lean): no function body of client/ pkg/ server/ can be left with a mutex it
+      locked still held (may-held set at every `return` and at the end of every body); what one such way out means for
+      a session's `ctl.mu`: nothing that needs the lock is handled any more and the session is never torn down
+      (`LockBal`, all message sequences), while with balanced functions everything is handled and the teardown completes.
+  12. map CENSUS (REGENERATED Gen/MapCensus.lean): obligation 1 judges a designated list of shared tables — the census
+      closes that list: every map-typed struct field that is written after construction is designated or pinned with its
+      reason; in pkg/auth (one verifier object shared by all connection goroutines) no method assigns a map.
 
   Places where the code as it is in /repo violates the property are kept visible, each behind a
   switch that the integrator flips when the corresponding fix commit lands:
@@ -1307,6 +1329,279 @@ theorem shutdown_witness :
     (prun false [.shutdown false] { active := 1 } [.worker, .worker, .userFinishes, .worker, .worker, .worker]).pc = 4 := by
   decide
 
+/-! ## 10. The ssh tunnel gateway: request payloads chosen by the ssh client (pkg/ssh) -/
+
+section sshgw
+open Frp.UserIn Frp.SshGw Frp.Gen.IndexFacts
+
+/-- the type `end` is computed in, AS THE SOURCE HAS IT (regenerated on every run): `.u32` while handleNewChannel adds
+    the peer's uint32 to 4 in uint32, `.wide` once the sum is made in a 64-bit type.  An extractor that finds no such
+    definition leaves `.u32` — and `ssh_exec_shape` fails -/
+def sshExecArith : NumT :=
+  match sshExecEnd with
+  | [.defPlus _ _ t] => t
+  | _ => .u32
+
+/-- tie: `end := 4 + E` with E a big-endian uint32 of the payload, one definition, in the type the model runs with -/
+theorem ssh_exec_shape : sshExecEnd = [.defPlus "end" 4 sshExecArith] := by
+  decide +kernel
+
+/-- the extractor is not blind: the six indexing / slicing expressions of pkg/ssh, three of them on sequences -/
+theorem ssh_sites_present :
+    sshSites.map (fun s => (s.fn, s.expr, s.opKind)) =
+      [ ("NewGateway>func", "authorizedKeysMap[string(key.Marshal())]", .map),
+        ("loadAuthorizedKeysFromFile", "authorizedKeysMap[string(pubKey.Marshal())]", .map),
+        ("TunnelServer.Run", "sshConn.Permissions.Extensions[\"user\"]", .map),
+        ("TunnelServer.parseClientAndProxyConfigurer", "args[0]", .seq),
+        ("TunnelServer.handleNewChannel", "req.Payload[:4]", .seq),
+        ("TunnelServer.handleNewChannel", "req.Payload[4:end]", .seq) ] := by
+  decide +kernel
+
+/-- which sites of pkg/ssh the judgement does NOT accept: none once `end` is computed without wrap-around, exactly
+    `req.Payload[4:end]` while it is computed in uint32 (`4 ≤ end` does not follow from `end := 4 + E`) -/
+theorem ssh_sites_unguarded_exact :
+    (sshSites.filter (fun s => !s.ok)).map (·.expr) =
+      if sshExecArith = .wide then [] else ["req.Payload[4:end]"] := by
+  decide +kernel
+
+/-- **the clause for the code at hand** (valid on the unchanged tree, where it says "violated", and on the repaired one,
+    where it says "holds"): every index / slice expression of pkg/ssh is a map lookup or dominated by guards that imply
+    Go's bounds check -/
+theorem ssh_sites_guarded_code :
+    (sshExecArith = .wide → ∀ s ∈ sshSites, s.ok = true) ∧
+    (sshExecArith = .u32 → ¬ ∀ s ∈ sshSites, s.ok = true) := by
+  decide +kernel
+
+/-- what acceptance means (same soundness lemma as for the user-facing parsers) -/
+theorem ssh_index_ok_sound : ∀ s ∈ sshSites, s.opKind = .seq → s.ok = true →
+    ∀ ρ : Env, (∀ f ∈ s.facts, f.holds ρ) → s.shape.safe ρ s.operand :=
+  fun _ _ hk hok _ hf => IdxSite.ok_safe hk hok hf
+
+/-- … and the rejection is right: the guards of the unchanged code (`end := 4 + E` in uint32, `len ≥ 5`,
+    `end ≤ len`) are satisfied by len = 5, E = 0xFFFFFFFC, end = 0 — and `p[4:0]` fails Go's check -/
+theorem ssh_end_rejection_right :
+    ∃ ρ : Env, (∀ f ∈ [GFact.defPlus "end" 4 .u32, .lenGe "req.Payload" 5, .varLeLen "end" "req.Payload"], f.holds ρ) ∧
+      ¬ Shape.safe ρ "req.Payload" (.slice (some (.const 4)) (some (.var "end"))) := by
+  refine ⟨⟨fun _ => 5, fun _ => 0⟩, ?_, ?_⟩
+  · intro f hf
+    simp only [List.mem_cons, List.mem_nil_iff, or_false] at hf
+    rcases hf with rfl | rfl | rfl
+    · exact ⟨4294967292, by decide, by decide⟩
+    · simp [GFact.holds]
+    · simp [GFact.holds]
+  · intro h
+    simp only [Shape.safe, Bound.eval] at h
+    obtain ⟨a, b, ha, hb, _, hab, _⟩ := h
+    simp only [Option.some.injEq] at ha hb
+    omega
+
+/-- the same judgement with the sum made in a 64-bit type accepts the site -/
+theorem ssh_end_wide_accepted :
+    (IdxSite.mk "pkg/ssh/server.go" "TunnelServer.handleNewChannel" 316 "req.Payload[4:end]" "req.Payload" .seq
+      (.slice (some (.const 4)) (some (.var "end")))
+      [.defPlus "end" 4 .wide, .lenGe "req.Payload" 5, .varLeLen "end" "req.Payload"]).ok = true ∧
+    (IdxSite.mk "pkg/ssh/server.go" "TunnelServer.handleNewChannel" 316 "req.Payload[4:end]" "req.Payload" .seq
+      (.slice (some (.const 4)) (some (.var "end")))
+      [.defPlus "end" 4 .u32, .lenGe "req.Payload" 5, .varLeLen "end" "req.Payload"]).ok = false ∧
+    (IdxSite.mk "pkg/ssh/server.go" "TunnelServer.handleNewChannel" 316 "req.Payload[4:end]" "req.Payload" .seq
+      (.slice (some (.const 4)) (some (.var "end")))
+      [.defPlus "end" 4 .wide, .lenGe "req.Payload" 5]).ok = false := by
+  decide
+
+/-- the full clause for the request loop: no payload of any request makes a slice expression fail Go's check -/
+def SshExecSafeFull (t : NumT) : Prop :=
+  ∀ (typ p : Str) (cap : Nat), p.length ≤ cap → handleReq t .i64 typ p cap ≠ .panic
+
+/-- repaired arithmetic: holds for every request type, payload and buffer capacity (and on 32-bit builds as well) -/
+theorem ssh_exec_wide_never_panics (w : IntW) (typ p : Str) (cap : Nat) (h : p.length ≤ cap) :
+    handleReq .wide w typ p cap ≠ .panic := handleReq_wide_never_panics w typ p cap h
+
+/-- as the code is: frps dies exactly for an `exec` request of more than four bytes whose length prefix is
+    0xFFFFFFFC … 0xFFFFFFFF -/
+theorem ssh_exec_u32_panics_iff (typ p : Str) (cap : Nat) (h : p.length ≤ cap) :
+    handleReq .u32 .i64 typ p cap = .panic ↔ (typ = execType ∧ 4 < p.length ∧ 4294967292 ≤ be32 p) :=
+  handleReq_u32_panics_iff typ p cap h
+
+/-- the same code on a 32-bit build: from 0x7FFFFFFC on -/
+theorem ssh_exec_u32_int32_panics_iff (typ p : Str) (cap : Nat) (h : p.length ≤ cap) (h31 : p.length < 2147483648) :
+    handleReq .u32 .i32 typ p cap = .panic ↔ (typ = execType ∧ 4 < p.length ∧ 2147483644 ≤ be32 p) :=
+  handleReq_u32_int32_panics_iff typ p cap h h31
+
+theorem ssh_exec_safe_partial (typ p : Str) (cap : Nat) (h : p.length ≤ cap) (hn : be32 p < 4294967292) :
+    handleReq .u32 .i64 typ p cap ≠ .panic := by
+  intro hc
+  have := (handleReq_u32_panics_iff typ p cap h).mp hc
+  omega
+
+/-- five bytes: FF FF FF FC 'x' -/
+theorem ssh_exec_witness : ¬ SshExecSafeFull .u32 := by
+  intro h
+  exact h execType [255, 255, 255, 252, 120] 5 (by decide) (by decide)
+
+theorem ssh_exec_fixed : SshExecSafeFull .wide :=
+  fun typ p cap h => handleReq_wide_never_panics .i64 typ p cap h
+
+/-- the repair changes nothing for prefixes below the wrap -/
+theorem ssh_exec_agree (typ p : Str) (cap : Nat) (hn : be32 p < 4294967292) :
+    handleReq .u32 .i64 typ p cap = handleReq .wide .i64 typ p cap := handleReq_agree typ p cap hn
+
+theorem ssh_exec_extra_spec (w : IntW) (typ p : Str) (cap : Nat) (s : Str) (h : handleReq .wide w typ p cap = .extra s) :
+    typ = execType ∧ s = (p.drop 4).take (be32 p) ∧ s.length = be32 p := handleReq_extra_spec w typ p cap s h
+
+/-- **the clause for the code at hand**, with the arithmetic read from the source -/
+theorem ssh_exec_code :
+    (sshExecArith = .wide → SshExecSafeFull sshExecArith) ∧ (sshExecArith = .u32 → ¬ SshExecSafeFull sshExecArith) := by
+  cases h : sshExecArith
+  · exact ⟨fun hc => (by cases hc), fun _ => ssh_exec_witness⟩
+  · exact ⟨fun _ => ssh_exec_fixed, fun hc => (by cases hc)⟩
+
+/-- ssh.Unmarshal into tcpipForward{Host string; Port uint32} (x/crypto/ssh's parseString / parseUint32 with their
+    slice expressions explicit) returns a value or an error for every payload -/
+theorem ssh_unmarshal_never_panics (data : Str) : unmarshalForwardG data ≠ .panic := unmarshalForwardG_total data
+
+/-- tie: the one Unmarshal call of pkg/ssh has exactly this target, and its error is tested and leaves; the loop of
+    handleNewChannel is started with `go` and no function of the package calls recover() -/
+theorem ssh_unmarshal_fact :
+    sshUnmarshals = [("TunnelServer.waitForwardAddrAndExtraPayload", "tcpipForward", ["string", "uint32"], true)] ∧
+    sshGoStmts.contains ("TunnelServer.waitForwardAddrAndExtraPayload", "s.handleNewChannel") = true ∧
+    sshGoStmts.contains ("Gateway.Run", "g.handleConn") = true ∧ sshRecoverCalls = 0 := by
+  decide +kernel
+
+/-- one ssh connection, ANY sequence of global requests, channel opens of any type, channel requests with any payload,
+    closes and a disconnect: with the repaired arithmetic the process is alive after it -/
+theorem ssh_conn_never_dies_fixed (evs : List SshGw.Ev) (c : SshGw.Conn) : (runConn .wide c evs).2 = .alive :=
+  run_wide_alive evs (c, .alive) rfl
+
+/-- as the code is: alive as long as no exec request carries a wrapping prefix -/
+theorem ssh_conn_alive_partial (evs : List SshGw.Ev) (c : SshGw.Conn) (hw : ∀ e ∈ evs, wrapsReq e = false) :
+    (runConn .u32 c evs).2 = .alive :=
+  run_u32_alive evs (c, .alive) rfl hw
+
+/-- as the code is: one channel of any type and one request end the process, whatever else is sent before or after
+    (NoClientAuth: no key needed) -/
+theorem ssh_conn_witness :
+    (runConn .u32 {} [.openCh [120], .chanReq 0 execType [255, 255, 255, 252, 120] 0]).2 = .processDies ∧
+    (runConn .u32 {} [.global forwardType [0, 0, 0, 0, 0, 0, 0, 80], .openCh [115], .chanReq 0 execType [0, 0, 0, 1, 116] 3,
+      .chanReq 0 execType [255, 255, 255, 255, 0, 0, 0, 0, 0] 0, .disconnect]).2 = .processDies ∧
+    (runConn .wide {} [.openCh [120], .chanReq 0 execType [255, 255, 255, 252, 120] 0]) = ({ chans := 1 }, .alive) ∧
+    (runConn .u32 {} [.openCh [120], .disconnect, .chanReq 0 execType [255, 255, 255, 252, 120] 0]).2 = .alive := by
+  decide
+
+theorem ssh_conn_code :
+    (sshExecArith = .wide → ∀ (evs : List SshGw.Ev) (c : SshGw.Conn), (runConn sshExecArith c evs).2 = .alive) ∧
+    (sshExecArith = .u32 → ∃ evs : List SshGw.Ev, (runConn sshExecArith {} evs).2 = .processDies) := by
+  cases h : sshExecArith
+  · exact ⟨fun hc => (by cases hc), fun _ => ⟨_, ssh_conn_witness.1⟩⟩
+  · exact ⟨fun _ => ssh_conn_never_dies_fixed, fun hc => (by cases hc)⟩
+
+end sshgw
+
+/-! ## 11. Lock balance: every function that takes a mutex gives it back on every way out -/
+
+section lockbal
+
+/-- functions whose contract is "returns with the lock held" (file, function, lock) — none in the tree -/
+def lockHandOvers : List (String × String × String) := []
+
+def lockLeaksOpen : List (String × String × Nat × String × String) :=
+  Frp.Gen.LockBalance.leaks.filter (fun l => !lockHandOvers.contains (l.1, l.2.1, l.2.2.2.1))
+
+/-- over the facts regenerated on this run: no function body of client/ pkg/ server/ can be left — by a `return` or by
+    running off its end, on ANY path — with a mutex it locked still held (may-held analysis: a lock held on one branch
+    counts) -/
+theorem lock_balance : lockLeaksOpen = [] := by
+  decide +kernel
+
+/-- the extractor is not blind: it followed more than a thousand bodies, more than a hundred of them lock something,
+    among them the two synchronous handlers of a session and the worker's teardown, all on `ctl.mu` -/
+theorem lock_balance_present :
+    1000 ≤ Frp.Gen.LockBalance.bodies ∧ 100 ≤ Frp.Gen.LockBalance.lockingFuncs.length ∧
+    ["Control.RegisterProxy", "Control.CloseProxy", "Control.worker"].all (fun f =>
+      Frp.Gen.LockBalance.lockingFuncs.any (fun l => l.1 = "server/control.go" && l.2.1 = f && l.2.2.contains "ctl.mu")) = true := by
+  decide +kernel
+
+/-- with lock-balanced functions (`lock_balance`) every message of a live session is handled — every sequence of NewProxy
+    (within or above max_ports_per_client), CloseProxy and Ping, every limit — -/
+theorem session_handles_all (max : Nat) (ms : List LockBal.Msg) (s : LockBal.Sess) (h : s.muHeld = false ∧ s.stuck = false)
+    (hg : s.gone = false) (hnd : ∀ m ∈ ms, m ≠ .drop) :
+    (LockBal.run false max s ms).handled = s.handled + ms.length ∧ (LockBal.run false max s ms).gone = false :=
+  LockBal.balanced_handles_all max ms s h hg hnd
+
+/-- … and when its connection goes the session is torn down completely (ports released, run id free) -/
+theorem session_teardown_closes (max : Nat) (ms : List LockBal.Msg) (s : LockBal.Sess) (h : s.muHeld = false ∧ s.stuck = false)
+    (hg : s.gone = false) (hnd : ∀ m ∈ ms, m ≠ .drop) : (LockBal.run false max s (ms ++ [.drop])).closed = true :=
+  LockBal.balanced_teardown_closes max ms s h hg hnd
+
+/-- one way out that leaves `ctl.mu` locked: from then on the session is NEVER torn down, whatever is sent and whether
+    or not the connection goes — its ports stay bound, a login with its run id waits for ever -/
+theorem lock_leak_never_closes (leak : Bool) (max : Nat) (ms : List LockBal.Msg) (s : LockBal.Sess)
+    (h : s.muHeld = true ∧ s.closed = false) :
+    (LockBal.run leak max s ms).closed = false ∧ (LockBal.run leak max s ms).muHeld = true :=
+  LockBal.leak_never_closes leak max ms s h
+
+/-- the refusal itself is enough: one NewProxy above the limit on a variant whose refusal branch keeps the lock -/
+theorem lock_leak_after_one_refusal (max : Nat) (hmax : 0 < max) (s : LockBal.Sess)
+    (hs : s.muHeld = false ∧ s.stuck = false ∧ s.gone = false ∧ s.closed = false)
+    (n : Nat) (hn : max < s.used + n) (ms : List LockBal.Msg) :
+    (LockBal.run true max s (.newProxy n :: ms)).closed = false :=
+  LockBal.leak_after_one_refusal max hmax s hs n hn ms
+
+theorem lock_leak_witness :
+    (LockBal.run true 2 {} (LockBal.opSchedule 2 [.closeProxy 1, .newProxy 1, .ping])) =
+      { muHeld := true, stuck := true, used := 2, handled := 3, refused := 1, gone := true, closed := false } ∧
+    (LockBal.run false 2 {} (LockBal.opSchedule 2 [.closeProxy 1, .newProxy 1, .ping])) =
+      { used := 2, handled := 6, refused := 1, gone := true, closed := true } ∧
+    (LockBal.run true 0 {} (LockBal.opSchedule 2 [.closeProxy 1, .newProxy 1, .ping])).closed = true :=
+  LockBal.leak_witness
+
+end lockbal
+
+/-! ## 12. Census of map-typed struct fields: the list of designated shared tables is closed -/
+
+section mapcensus
+open Frp.Gen.MapCensus
+
+/-- map fields that are written after construction and are NOT shared tables judged by obligation 1, each with the
+    reason (read by hand).  A prefix ending in `/` or `.` stands for everything below it -/
+def mapFieldsPinned : List (String × String) :=
+  [ ("pkg/config/", "configuration value objects: filled while ONE goroutine loads a file / converts a message, handed on afterwards"),
+    ("pkg/metrics/mem.ServerStatistics.", "only reached through serverMetrics, whose every method holds serverMetrics.mu"),
+    ("pkg/metrics/mem.ServerStats.ProxyTypeCounts", "a fresh copy built by serverMetrics.GetServer under serverMetrics.mu and returned"),
+    ("pkg/msg.Dispatcher.msgHandlers", "RegisterHandler runs before Dispatcher.Run starts the read loop; read-only afterwards"),
+    ("pkg/vnet.clientRouter.routes", "own RWMutex taken in addRoute / findConn / delRoute, no other access"),
+    ("pkg/vnet.serverRouter.", "own RWMutex taken in addConn / findConnBySrc / registerSrcIP / delConn, no other access") ]
+
+def mapFieldPinned (obj : String) : Bool :=
+  mapFieldsPinned.any (fun p => p.1 = obj || ((p.1.endsWith "/" || p.1.endsWith ".") && obj.startsWith p.1))
+
+def mapFieldDesignated (obj : String) : Bool := (accesses.map (·.obj)).contains obj
+
+/-- every map-typed struct field of client/ pkg/ server/ that some statement outside a constructor writes is one of the
+    designated shared tables (every access to it is judged by `all_guarded…` over LockFacts) or pinned with its reason —
+    over the census regenerated on this run: a NEW map that is written at run time has to be argued for -/
+theorem map_census_closed :
+    ∀ f ∈ mapFields, f.2.1 = 0 ∨ mapFieldDesignated f.1 = true ∨ mapFieldPinned f.1 = true := by
+  decide +kernel
+
+/-- the extractor is not blind: the session table, a session's proxies, the nat-hole tables, the port manager's sets
+    are in the census as written after construction -/
+theorem map_census_present :
+    40 ≤ mapFields.length ∧
+    ["server.ControlManager.ctlsByRunID", "server.Control.proxies", "pkg/nathole.Controller.clientCfgs", "pkg/nathole.Controller.sessions",
+     "server/ports.Manager.usedPorts", "server/proxy.Manager.pxys", "pkg/util/vhost.Routers.indexByDomain", "client/proxy.Manager.proxies"].all
+      (fun o => mapFields.any (fun f => f.1 = o && f.2.1 != 0 && f.2.2.1) && mapFieldDesignated o) = true := by
+  decide +kernel
+
+/-- pkg/auth (the verifier is ONE object shared by every connection's goroutine): the only field a method assigns is
+    `OidcAuthConsumer.subjectsFromLogin`, and it is a SLICE — an unsynchronised append can lose an update (DESIGN 7 #18, a
+    note) but cannot end the process; a map there would (`fatal error: concurrent map writes`) -/
+theorem auth_field_writes_pinned :
+    authFieldWrites = [("pkg/auth.OidcAuthConsumer.subjectsFromLogin", "slice", "OidcAuthConsumer.VerifyLogin")] ∧
+    authFieldWrites.all (fun w => w.2.1 != "map") = true := by
+  decide +kernel
+
+end mapcensus
+
 /-! ## non-vacuity -/
 
 example : chanCap false 5 1 = 11 := by decide
@@ -1339,6 +1634,17 @@ example : handleStartWork false .v1 true true .bad .v4 = .crash ∧ handleStartW
     handleStartWork false .unset true true .bad .bad = .nohdr ∧ handleStartWork false .v1 false true .bad .bad = .nohdr := by decide
 
 example : Frp.Gen.IndexFacts.sites.length ≠ 0 := by decide +kernel
+example : Frp.Gen.IndexFacts.sshSites.length ≠ 0 := by decide +kernel
+example : SshGw.handleReq .u32 .i64 SshGw.execType [0, 0, 0, 3, 116, 99, 112, 33] 8 = .extra [116, 99, 112] ∧
+    SshGw.handleReq .u32 .i64 SshGw.execType [0, 0, 0, 9, 116] 5 = .ignored ∧
+    SshGw.handleReq .u32 .i64 SshGw.execType [255, 255, 255, 251, 116] 5 = .ignored ∧
+    SshGw.handleReq .u32 .i64 SshGw.execType [255, 255, 255, 252, 116] 5 = .panic ∧
+    SshGw.handleReq .wide .i64 SshGw.execType [255, 255, 255, 252, 116] 5 = .ignored ∧
+    SshGw.handleReq .u32 .i32 SshGw.execType [127, 255, 255, 252, 116] 5 = .panic ∧
+    SshGw.handleReq .u32 .i64 [115] [255, 255, 255, 252, 116] 5 = .ignored := by decide
+example : SshGw.unmarshalForwardG [0, 0, 0, 1, 120, 0, 0, 0, 80] = .ok (some ([120], 80)) ∧
+    SshGw.unmarshalForwardG [255, 255, 255, 255, 120, 0, 0, 0, 80] = .ok none ∧ SshGw.unmarshalForwardG [] = .ok none ∧
+    SshGw.unmarshalForwardG [0, 0, 0, 0, 0, 0, 0, 80, 1] = .ok none := by decide
 example : Frp.Gen.PluginClose.closeFacts.length ≠ 0 := by decide +kernel
 example : UserIn.canonicalHostG [46] = .ok (some []) ∧ UserIn.canonicalHostG [46, 58, 56, 48] = .ok (some []) ∧
     UserIn.canonicalHostG [91, 58, 58, 49, 93] = .ok (some [91, 58, 58, 49, 93]) ∧ UserIn.canonicalHostG [58, 58] = .ok (some [58, 58]) ∧
